@@ -37,7 +37,7 @@ ALL_FEATURES = {
     "str_enum", "int_enum", "object", "closed_object", "addl_schema", "map", "array", "set", "tuple", "fixed_array",
     "nullable_type", "nullable_oneof", "nullable_anyof_ref", "ref", "recursion",
     "oneof_external", "oneof_internal", "oneof_adjacent", "oneof_untagged", "anyof_exclusive", "allof_objects",
-    "rename", "defaults", "oneof_optional_const", "mixed_closedness",
+    "rename", "defaults", "oneof_optional_const", "mixed_closedness", "multi_tag_values",
 }
 
 
@@ -215,7 +215,20 @@ class Gen:
         if t == "string" and len(s) == 1:
             return ("dflt",)
         if t == "array" and isinstance(s.get("items"), dict) and "minItems" not in s:
+            it = s["items"]
+            if self.rnd.random() < 0.6 and "maxItems" not in s and not s.get("uniqueItems"):
+                d = self.default_for(it) if isinstance(it, dict) and "$ref" not in it else None
+                if d is not None and not isinstance(d[0], (list, dict)):
+                    return ([d[0], d[0]],)
             return ([],)
+        if t == "object" and "properties" not in s and isinstance(s.get("additionalProperties"), dict):
+            # map-typed member: empty (the intrinsic default) or a non-empty default of its own
+            av = s["additionalProperties"]
+            if self.rnd.random() < 0.7 and "$ref" not in av:
+                d = self.default_for(av)
+                if d is not None and not isinstance(d[0], (list, dict)):
+                    return ({"env": d[0], "tier": d[0]},)
+            return ({},)
         return None
 
     def compound(self, names, depth):
@@ -305,10 +318,15 @@ class Gen:
             mixed = self.has("mixed_closedness") and r.random() < 0.3
             if mixed:
                 self.tag("mixed_closedness")
+            # full stream only: one branch admits TWO tag values (so the property is no constant
+            # and the union must not become an internally tagged enum keyed on the first value)
+            multi = r.randrange(len(vn)) if self.has("multi_tag_values") and r.random() < 0.3 else None
+            if multi is not None:
+                self.tag("multi_tag_values")
             for n, v in enumerate(vn):
                 o = self.obj(names, depth + 1, closed=(r.random() < 0.5) if mixed else closed,
                              nprops=2 if n == 0 else r.randrange(0, 3),
-                             extra_props={"tagg": {"type": "string", "enum": [v]}})
+                             extra_props={"tagg": {"type": "string", "enum": [v, v + "-alt"] if n == multi else [v]}})
                 subs.append(o)
             return {"oneOf": subs}
         if k == "oneof_adjacent":
@@ -740,6 +758,20 @@ def boundary_variants(seed, doc, schema, inst):
                 out.append(set_path(inst, path, lo))
                 out.append(set_path(inst, path, hi))
     return out
+
+
+def with_emptied(doc, schema, inst):
+    """Variants of inst in which ONE present non-required map / array member is replaced by the empty
+    map / array (an explicit empty value must survive a round trip as itself or as absent-with-empty-default)."""
+    out = []
+    for path, s, v in list(paths(doc, schema, inst)):
+        if not path or not isinstance(s, dict):
+            continue
+        if isinstance(v, dict) and v and "properties" not in s and s.get("type") == "object":
+            out.append(set_path(inst, path, {}))
+        elif isinstance(v, list) and v and isinstance(s.get("items"), dict):
+            out.append(set_path(inst, path, []))
+    return out[:4]
 
 
 def with_extra_keys(doc, schema, inst, key="zzz_extra"):
